@@ -43,7 +43,9 @@ def interface_kind_dispatch(prog):
     fold_c = lambda e_: prog.const_eval(e_, cmod, ccat)
     type_exprs = sorted({ctext(x) for x in ast.walk(gci) if isinstance(x, ast.Call) and call_name(x) == 'get_type' and not x.args})
     ctypes = prog.enum_members('fim.slivers.attached_components:ComponentType')
-    iloops = [n for n in walk_no_nested(gci) if isinstance(n, ast.For) and 'interfaces_dict' in ast.unparse(n.iter)]
+    full_env_ = local_env(gci)
+    iloops = [n for n in walk_no_nested(gci) if isinstance(n, ast.For) and
+              any(isinstance(x, ast.Subscript) and isinstance(x.slice, ast.Constant) and x.slice.value == 'Interfaces' for x in ast.walk(expand(n.iter, full_env_)))]
     st_calls = [c for l_ in iloops for c in ast.walk(l_) if isinstance(c, ast.Call) and call_name(c) == 'set_type' and c.args]
     for T in ctypes:
         bind = {te: prog.const_eval(ast.parse(f'ComponentType.{T}', mode='eval').body, cmod, ccat) for te in type_exprs}
